@@ -114,3 +114,32 @@ macro_rules! der_encode {
 der_encode!(c18_der_encode_u64, U64, 8);
 //@ name=c18_der_encode_u128 prop=C18,C11 tier=quick profile=k64 funcs="EncodeValue::value_len,EncodeValue::encode_value for Uint" bound="U128: every value" free_bits=128
 der_encode!(c18_der_encode_u128, U128, 16);
+
+//@ prop=C18,C11 tier=quick profile=k64 funcs="TryFrom<AnyRef> for Uint,UintRef::try_from(AnyRef)" bound="U64: every INTEGER content-octet string of length 0..=10 presented as an AnyRef (tag INTEGER or another tag): accepted exactly when canonical (non-empty, non-negative, no superfluous leading zero octet), of the right tag and at most 8 magnitude octets; then the value is the big-endian value" free_bits=85
+#[kani::proof]
+#[kani::unwind(24)]
+fn c18_der_anyref_u64_canonical_only() {
+    let buf: [u8; 10] = kani::any();
+    let len: usize = kani::any();
+    kani::assume(len <= 10);
+    let right_tag: bool = kani::any();
+    let tag = if right_tag { Tag::Integer } else { Tag::OctetString };
+    let any = AnyRef::new(tag, &buf[..len]);
+    kani::assume(any.is_ok());
+    let r = U64::try_from(any.unwrap());
+    let nonneg = len >= 1 && buf[0] < 0x80;
+    let minimal = len == 1 || (len >= 2 && !(buf[0] == 0 && buf[1] < 0x80));
+    let mag = if len >= 1 && buf[0] == 0 { len - 1 } else { len };
+    let acceptable = right_tag && nonneg && minimal && mag <= 8;
+    match r {
+        Ok(x) => {
+            assert!(acceptable);
+            assert!(to_u128(&x) == be_val(&buf[..len]));
+        }
+        Err(_) => assert!(!acceptable),
+    }
+    kani::cover!(acceptable && len == 9);
+    kani::cover!(right_tag && len == 2 && buf[0] == 0 && buf[1] < 0x80);
+    kani::cover!(right_tag && len == 1 && buf[0] >= 0x80);
+    kani::cover!(right_tag && len == 0);
+}
